@@ -447,6 +447,14 @@ func (h *Handler) isAllowed(ip net.IP) bool {
 func (h *Handler) AddAllowedRoute(network *net.IPNet) {
 	h.routesMu.Lock()
 	defer h.routesMu.Unlock()
+	// A network that is already allowed stays allowed once: re-adding a dynamic route
+	// must not leave a second copy behind that survives the route's removal.
+	target := network.String()
+	for _, route := range h.cfg.AllowedRoutes {
+		if route.String() == target {
+			return
+		}
+	}
 	h.cfg.AllowedRoutes = append(h.cfg.AllowedRoutes, network)
 }
 
